@@ -1,5 +1,5 @@
 import EchoProofs.C04Scope
-import EchoProofs.Tree.WF
+import EchoProofs.Tree.OK
 /-!
 # C04 — group scoping, request level
 
@@ -11,10 +11,10 @@ or for another host.
 
 The theorem combines the registration invariant (`C04_scope_routes`) with the soundness of the
 radix-tree model (`find_eq_route` + `C01_sound_partial`: a dispatched record is a registered route
-whose pattern matches the path).  It needs the route table of the request's host to be well formed (`wfTable`:
-no escaped colon, no text after `*`, no route registered twice — note that calling `Group.Use` twice on one
-group registers its catch-all routes twice, which puts the configuration outside this theorem; the
-correspondence check and the model-free oracle still cover those).
+whose pattern matches the path).  It needs every pattern registered for the request's host to be representable
+(`okTable`: no escaped colon, no text after `*`); routes may be registered more than once — calling
+`Group.Use` twice on one group registers its catch-all routes twice — because `find_eq_route_ok` covers
+re-registrations (the later registration is the one in force).
 -/
 namespace C04
 open Router Router.Spec Router.Tree
@@ -142,7 +142,7 @@ theorem C04_group_never_outside (i : Mw) (ops : List Op)
     (hgo : ∀ op ∈ ops, GroupOnlyOp i op) (hpo : ∀ op ∈ ops, PfxOKOp op)
     (hnu : i ∉ (run ops).use) (hnp : ∀ m ∈ (run ops).pre, m.id ≠ i)
     (host method path : Str)
-    (hwf : wfTable (tableOf (run ops)
+    (hwf : okTable (tableOf (run ops)
               (if (run ops).hosts.contains host then host else [])) = true)
     (hin : Ev.enter i ∈ serve (run ops) host method path) :
     ∃ s ∈ scopes i ops,
@@ -173,25 +173,10 @@ theorem C04_group_never_outside (i : Mw) (ops : List Op)
   | panic => simp at hsnap
   | dispatch rm vals =>
     simp only at hsnap
-    -- the dispatched record is a registered route of this host whose pattern matches the path
-    obtain ⟨o, ho, he⟩ := find_eq_route_wf (tableOf c h) method p' (maxParam (tableOf c h)) (Nat.le_refl _) hwf
-    rw [hfind] at ho
-    obtain ⟨mm, rfl⟩ := outRel_dispatch_inv ho
-    have hr := outEquiv_dispatch_left he
-    have hmem : entryOf mm rm ∈ (tableOf c h).map mkEntry ∧ ∃ w, inst (entryOf mm rm).toks w = some p' := by
-      rcases C01.C01_sound_partial _ _ _ _ _ hr with ⟨h1, h2, _, _⟩ | ⟨_, h1, h2, _⟩
-      · exact ⟨h1, _, h2⟩
-      · exact ⟨h1, h2⟩
-    obtain ⟨hmem, w, hw⟩ := hmem
-    obtain ⟨rt, hrt, hrte⟩ := List.mem_map.mp hmem
-    obtain ⟨r, hget, hrh, _, hrp⟩ := mem_tableOf hrt
-    have hhid : rt.hid = rm.hid := by
-      have := congrArg Entry.hid hrte
-      simpa [mkEntry, entryOf] using this
-    have htoks : (entryOf mm rm).toks = (norm r.path).1 := by
-      have := congrArg Entry.toks hrte
-      rw [← this, ← hrp]
-      simp [mkEntry]
+    -- the dispatched record is a registration in force of this host whose pattern matches the path
+    obtain ⟨rt, hrt, hhid, _, w, hw⟩ := tree_dispatch_registered (tableOf c h) method p'
+      (maxParam (tableOf c h)) (Nat.le_refl _) hwf rm vals hfind
+    obtain ⟨r, hget, hrh, _, hrp⟩ := mem_tableOf (dedupLast_subset _ _ hrt)
     rw [hhid] at hget
     simp only [hget] at hsnap
     have hir : i ∈ r.mws := by
@@ -204,7 +189,7 @@ theorem C04_group_never_outside (i : Mw) (ops : List Op)
       routes_normalized ops {} (by intro r hr; simp at hr) r (by
         have : ops.foldl exec {} = c := hc
         rw [this]; exact hrm)
-    rw [htoks] at hw
+    rw [hrp] at hw
     exact plain_prefix_of_match s.2 r.path p' hpl (by rw [hnorm]; exact hs2) w hw
 
 end C04
@@ -218,7 +203,7 @@ def demo2 : List Op :=
     .group none "/g".toList [3], .add (some 0) "GET".toList "/x".toList 7 false [4],
     .add none "GET".toList "/other/:id".toList 8 false [] ]
 
-example : wfTable (tableOf (run demo2) []) = true := by decide
+example : okTable (tableOf (run demo2) []) = true := by decide
 example : (run demo2).hosts.contains [] = false := by decide
 theorem demo2_trace : serve (run demo2) [] "GET".toList "/old".toList
     = [.enter 1, .enter 2, .enter 3, .enter 4, .hnd 7,
@@ -227,6 +212,6 @@ example : Ev.enter 3 ∈ serve (run demo2) [] "GET".toList "/old".toList := by r
 example : 3 ∉ (run demo2).use ∧ ∀ m ∈ (run demo2).pre, m.id ≠ 3 := by decide
 example : scopes 3 demo2 = [([], "/g".toList)] := by decide
 example : Plain "/g".toList := by decide
-/-- the demo program repeats `Group.Use`, so its catch-all routes are registered twice: outside the theorem -/
-example : wfTable (tableOf (run demo) []) = false := by decide
+/-- the demo program repeats `Group.Use`, so its catch-all routes are registered twice: still covered -/
+example : wfTable (tableOf (run demo) []) = false ∧ okTable (tableOf (run demo) []) = true := by decide
 end C04
